@@ -58,11 +58,22 @@ impl PseudoArgData {
 
         Ok(PseudoArgData {
             blob: blob.map(|str| parse_args_blob(str).map(|s| sp!(str.span => s))).transpose()?,
-            param_mask: param_mask.map(|x| sp!(x.span => x.value as _)),
-            pop: pop.map(|x| sp!(x.span => x.value as _)),
-            extra_arg: extra_arg.map(|x| sp!(x.span => x.value as _)),
-            arg_count: arg_count.map(|x| sp!(x.span => x.value as _)),
+            param_mask: param_mask.map(|x| fit_pseudo(x, "@mask")).transpose()?,
+            pop: pop.map(|x| fit_pseudo(x, "@pop")).transpose()?,
+            extra_arg: extra_arg.map(|x| fit_pseudo(x, "@arg0")).transpose()?,
+            arg_count: arg_count.map(|x| fit_pseudo(x, "@nargs")).transpose()?,
         })
+    }
+}
+
+/// Convert the value of an integer pseudo-arg to the type of the field it sets, or fail if it does not fit.
+fn fit_pseudo<T: TryFrom<i32>>(x: Sp<i32>, what: &str) -> Result<Sp<T>, Diagnostic> {
+    match T::try_from(x.value) {
+        Ok(value) => Ok(sp!(x.span => value)),
+        Err(_) => Err(error!(
+            message("value {} is out of range for {what}", x.value),
+            primary(x, "does not fit in {} bits", 8 * std::mem::size_of::<T>()),
+        )),
     }
 }
 
